@@ -288,10 +288,17 @@ package treemap
 //@   modifies nothing
 //@   ensures [C14 C16 C17 C18] fresh(result) && Inv(result) && fresh(result.tree) && result.tree.Comparator == m.tree.Comparator && N(result) <= N(m)
 //@   ensures [C14] all: forall j :: 0 <= j && j < N(m) ==> Has(result, fst(f(KeyAt(m, j), ValAt(m, j))))
+//@   ensures [C14] only: forall k like fst(f(KeyAt(m, 0), ValAt(m, 0))) :: Has(result, k) ==> (exists j :: 0 <= j && j < N(m) && result.tree.Comparator(k, fst(f(KeyAt(m, j), ValAt(m, j)))) == 0 && Val(result, k) == snd(f(KeyAt(m, j), ValAt(m, j))))
+//@   -- a key of the new map is the one just put or was there before (and then has a witness among the earlier positions)
+//@   assert after Map.Put#1: arg1 == fst(f(KeyAt(m, Cur(iterator)), ValAt(m, Cur(iterator)))) && arg2 == snd(f(KeyAt(m, Cur(iterator)), ValAt(m, Cur(iterator)))) && 0 <= Cur(iterator) && Cur(iterator) < N(m)
+//@   assert after Map.Put#1: forall k like fst(f(KeyAt(m, 0), ValAt(m, 0))) :: Has(newMap, k) ==> (newMap.tree.Comparator(k, arg1) == 0 && Val(newMap, k) == arg2) || (exists j :: 0 <= j && j < Cur(iterator) && j < N(m) && newMap.tree.Comparator(k, fst(f(KeyAt(m, j), ValAt(m, j)))) == 0 && Val(newMap, k) == snd(f(KeyAt(m, j), ValAt(m, j))))
+//@   focus lemma:after-Map.Put#1#2 : loop1:inv:*, Map.Put#1:map, Map.Put#1:1, Iterator.Next#*, pre:*
+//@   focus loop1:inv-keep:4* : lemma:after-Map.Put#1#*, Iterator.Next#*, pre:*
 //@   loop 1:
 //@     invariant ItInv(iterator) && iterator.iterator.tree == m.tree && fresh(iterator) && fresh(iterator.iterator) && fresh(newMap) && Inv(newMap) && fresh(newMap.tree) && newMap.tree.Comparator == m.tree.Comparator && N(newMap) <= min(Cur(iterator) + 1, N(m))
 //@     invariant forall x like m.tree.Root :: fresh(x) ==> x.tr == newMap.tree || x.tr == nil
 //@     invariant forall j :: 0 <= j && j <= Cur(iterator) && j < N(m) ==> Has(newMap, fst(f(KeyAt(m, j), ValAt(m, j))))
+//@     invariant forall k like fst(f(KeyAt(m, 0), ValAt(m, 0))) :: Has(newMap, k) ==> (exists j :: 0 <= j && j <= Cur(iterator) && j < N(m) && newMap.tree.Comparator(k, fst(f(KeyAt(m, j), ValAt(m, j)))) == 0 && Val(newMap, k) == snd(f(KeyAt(m, j), ValAt(m, j))))
 //@     decreases N(m) - Cur(iterator)
 
 //@ func New
